@@ -128,3 +128,59 @@ def class_state_writes(res, tree: Tree, rule: str, select: Callable[[ClassInfo],
                 f"{scanned} methods scanned" if not bad else "; ".join(f"{m}: {w} (line {ln})" for m, w, ln in bad[:4]))
         n += 1
     return n
+
+
+def paired_call_args(res, tree: Tree, rule: str, role: str, select_env: Callable[[ClassInfo], bool]) -> int:
+    """W4 (sibling call sites): a helper that `reset` calls with exactly the value it stores in state field f is,
+    when `step` calls it too, given the value step stores in f -- never the superseded `state.f` of the incoming
+    state while step replaces f.  `role` selects the call sites: 'mask' = the call result reaches a *mask* field of
+    the new state or observation, 'state' = every other call site.  Sites where step passes something else (an
+    intermediate value) are counted and silent."""
+    from ..engine import analyse_env
+    from ..terms import contains, uncopy
+    from .common import environments, txt
+    n = 0
+    for ci in environments(tree):
+        if not select_env(ci):
+            continue
+        ea = analyse_env(tree, ci)
+        if ea.state_cls is None:
+            continue
+        vfg = ea.vfg
+        reset = tree.find_method(ci, "reset")
+        step = tree.find_method(ci, "step")
+        fields = tree.fields(ea.state_cls)
+        R = {f: uncopy(vfg.mk_attr(ea.reset_state, f)) for f in fields}
+        N = {f: uncopy(vfg.mk_attr(ea.step_state, f)) for f in fields}
+        O = {f: vfg.mk_attr(ea.state, f) for f in fields}
+        mask_sinks = [N[f] for f in fields if "mask" in f]
+        obs = vfg.mk_attr(ea.step_ts, "observation")
+        if ea.obs_cls is not None:
+            mask_sinks += [vfg.mk_attr(obs, f) for f in tree.fields(ea.obs_cls) if "mask" in f]
+        rs, ss = {}, {}
+        for f, vars_, caller, node, result in vfg.callsites:
+            if caller is reset:
+                rs.setdefault(f.qual, []).append((vars_, node))
+            if caller is step:
+                ss.setdefault(f.qual, []).append((vars_, node, result, f))
+        for q in sorted(rs):
+            for b, bnode, bres, bf in ss.get(q, []):
+                is_mask = bres is not None and any(contains(m, uncopy(bres)) for m in mask_sinks)
+                if (role == "mask") != is_mask:
+                    continue
+                for a, _ in rs[q]:
+                    for pn in a:
+                        if pn not in b or pn == "self":
+                            continue
+                        ra, sb = uncopy(a[pn]), uncopy(b[pn])
+                        for f in fields:
+                            if R[f] is not ra or N[f] is O[f]:
+                                continue
+                            stale = sb is O[f]
+                            site = f"{step.module.relpath}:{getattr(bnode, 'lineno', step.node.lineno)}"
+                            res.add(rule, site, f"{ci.name}.step -> {short(q)}({pn}=...)",
+                                    f"reset passes the value it stores in state.{f}; step passes the value it stores in state.{f} "
+                                    f"(or an intermediate), not the superseded incoming state.{f}", not stale,
+                                    "fresh" if sb is N[f] else ("superseded state." + f if stale else "intermediate value " + txt(sb, 2, 60)))
+                            n += 1
+    return n
